@@ -522,9 +522,9 @@ pub fn mk_app(cfg: &Cfg, role: Role) -> App {
         app.sync_related_entities::<ChildOf>();
         app.sync_related_entities::<Follows>();
     }
-    if std::env::var("VERIF_TRACE").is_ok() {
+    if let Ok(f) = std::env::var("VERIF_TRACE") {
         app.add_plugins(bevy::log::LogPlugin {
-            filter: "bevy_replicon=trace".into(),
+            filter: if f.contains('=') { f } else { "bevy_replicon=trace".into() },
             ..Default::default()
         });
     }
